@@ -14,7 +14,7 @@ LEVEL = "exploration"
 
 def published_helpers(chk):
     import bgrun
-    return bgrun.helpers_step(chk, "C16")
+    return bgrun.helpers_step(chk, "C16") + bgrun.helpers_step_cpp(chk, "C16")
 
 
 def run(chk, replay=None):
